@@ -26,7 +26,10 @@ ASSUMPTIONS = ["handlers removed by *another* party while a delivery that "
 REQUIRED = ["deliveries", "invocations", "reentrant_sub", "reentrant_sub_prio",
             "reentrant_unsub", "reentrant_raise", "halts", "once_consumed",
             "handler_exceptions", "noerrors_swallowed", "undeclared_rejected",
-            "weak_dropped"]
+            "weak_dropped", "handler_revent_errors",
+            "noerrors_swallowed_with_reporting_hook_on",
+            "lazily_initialised_sources", "halts_through_the_event_attribute",
+            "sinks_bound_with_several_handlers"]
 TIMEOUT = {"quick": 600, "thorough": 5400}
 
 RETS = ["none", "true", "false", "cont", "halt", "remove", "haltremove"]
@@ -47,12 +50,12 @@ class MonitorFired (Exception):
 class Sub (object):
   __slots__ = ("sid", "type", "prio", "once", "weak", "script", "seq",
                "alive", "consumed", "removed_at", "removed_by_other_at",
-               "ninv", "token", "owner_alive", "handler")
+               "ninv", "token", "owner_alive", "handler", "src")
 
 
 class Delivery (object):
   __slots__ = ("type", "start", "snapshot", "invoked", "pos", "halted",
-               "aborted", "order")
+               "aborted", "order", "src", "attr")
 
 
 class World (object):
@@ -70,11 +73,39 @@ class World (object):
         R.Event.__init__(self); self.a = a; self.k = k
     class EX (R.Event):
       pass
-    class Src (R.EventMixin):
-      _eventMixin_events = set([E0, E1])
+    class E0b (E0):
+      pass                      # a subclass of a declared type is not declared
+    flavour = case.get("flavour", 0)
+    if flavour == 1:
+      # a source that overrides __init__ without calling the base class
+      # (most POX sources do): the mixin initialises itself on first use
+      class Src (R.EventMixin):
+        _eventMixin_events = set([E0, E1])
+        def __init__ (self): self.mine = 1
+    elif flavour == 2:
+      # events declared in a base class of the source
+      class Base (R.EventMixin):
+        _eventMixin_events = set([E0, E1])
+      class Src (Base):
+        def __init__ (self): self.mine = 2
+    elif flavour == 3:
+      # events added after the fact
+      class Src (R.EventMixin):
+        _eventMixin_events = set([E0])
+        def __init__ (self):
+          self._eventMixin_addEvents([E1])
+    else:
+      class Src (R.EventMixin):
+        _eventMixin_events = set([E0, E1])
+    if flavour: rep.count("lazily_initialised_sources")
     self.types = [E0, E1]
     self.EX = EX
-    self.src = Src()
+    self.E0b = E0b
+    # several instances of one source class: what is subscribed on one must
+    # not be reachable through another
+    self.srcs = [Src() for _ in range(case.get("nsrc", 1))]
+    self.src = self.srcs[0]
+    self.nraise = 0
     self.subs = []
     self.clock = 0
     self.stack = []
@@ -100,6 +131,8 @@ class World (object):
     s.weak = weak; s.script = script; s.alive = True; s.consumed = False
     s.removed_at = None; s.removed_by_other_at = None; s.ninv = 0
     s.owner_alive = True
+    s.src = s.sid % len(self.srcs)
+    src = self.srcs[s.src]
     class Owner (object):
       def _handle_E0 (self_, event, *a, **k):
         return w.on_invoke(s, event, a, k)
@@ -124,26 +157,26 @@ class World (object):
     if weak: kw["weak"] = True
     try:
       if how == "byname":
-        tok = self.src.addListenerByName(T.__name__, handler, **kw)
+        tok = src.addListenerByName(T.__name__, handler, **kw)
       elif how == "add_listener":
-        tok = self.src.add_listener(handler, event_type=T, **kw)
+        tok = src.add_listener(handler, event_type=T, **kw)
       elif how == "add_listener_name":
-        tok = self.src.add_listener(handler, event_name=T.__name__, **kw)
+        tok = src.add_listener(handler, event_name=T.__name__, **kw)
       elif how == "infer":
-        tok = self.src.add_listener(handler, **kw)
+        tok = src.add_listener(handler, **kw)
       elif how == "autobind" and not once:
         # bind exactly one _handle_ method through addListeners()
         class One (object): pass
         one = One()
         setattr(one, "_handle_" + T.__name__, handler)
         kw.pop("once", None)
-        toks = self.src.addListeners(one, **kw)
+        toks = src.addListeners(one, **kw)
         if len(toks) != 1:
           self.fire("autobind count", "addListeners bound %d handlers for one "
                     "_handle_ method" % len(toks))
         tok = toks[0] if toks else None
       else:
-        tok = self.src.addListener(T, handler, **kw)
+        tok = src.addListener(T, handler, **kw)
     except Exception as e:
       self.fire("subscribe raises %s" % type(e).__name__,
                 "subscribe(how=%s,prio=%r,once=%r,weak=%r) raised %r" %
@@ -160,11 +193,69 @@ class World (object):
       self.flags.add("mut")
     return s
 
+  def do_autobind2 (self, prio, weak, prefix, via):
+    """
+    One sink object with a handler for each of the two event types, bound in
+    one call: addListeners(sink[, prefix=...]) or sink.listenTo(source).  Two
+    subscriptions result, each with its own token.
+    """
+    w = self
+    R = self.R
+    subs = []
+    for t in (0, 1):
+      s = Sub()
+      s.sid = len(self.subs) + len(subs); s.type = t; s.prio = prio; s.once = False
+      s.weak = weak; s.script = []; s.alive = True; s.consumed = False
+      s.removed_at = None; s.removed_by_other_at = None; s.ninv = 0
+      s.owner_alive = True; s.src = (len(self.subs)) % len(self.srcs)
+      s.handler = None
+      subs.append(s)
+    src = self.srcs[subs[0].src]
+    pre = ("_" + prefix) if prefix else ""
+    ns = {}
+    def mk (s):
+      def h (self_, event, *a, **k): return w.on_invoke(s, event, a, k)
+      return h
+    ns["_handle%s_%s" % (pre, self.types[0].__name__)] = mk(subs[0])
+    ns["_handle%s_%s" % (pre, self.types[1].__name__)] = mk(subs[1])
+    # a look-alike that must not be bound (another prefix / no such event)
+    ns["_handle_zz_%s" % self.types[0].__name__] = lambda self_, e: w.fire(
+      "handler with another prefix was bound", "")
+    Sink = type("Sink", (R.EventMixin,), ns)
+    sink = Sink()
+    kw = {}
+    if prio: kw["priority"] = prio
+    if weak: kw["weak"] = True
+    if prefix: kw["prefix"] = prefix
+    try:
+      if via == "listenTo":
+        toks = sink.listenTo(src, **kw)
+      else:
+        toks = src.addListeners(sink, **kw)
+    except Exception as e:
+      self.fire("bulk subscribe raises %s" % type(e).__name__, repr(e)); return
+    self.rep.count("sinks_bound_with_several_handlers")
+    toks = list(toks or [])
+    if len(toks) != 2:
+      self.fire("autobind count", "%d handlers bound for a sink with two "
+                "_handle_ methods (prefix %r, via %s)" % (len(toks), prefix, via))
+      return
+    for s in subs:
+      tk = [x for x in toks if isinstance(x, tuple) and x and x[0] is self.types[s.type]]
+      if len(tk) != 1:
+        self.fire("subscribe token", "tokens %r" % (toks,)); return
+      s.token = tk[0]
+      s.seq = self.tick()
+      self.owners[s.sid] = None
+      self.subs.append(s)
+    self.sinks = getattr(self, "sinks", []) + [sink]
+
   def do_unsub (self, s, method, by=None):
     """by: the Sub whose handler is doing this (None = top level)."""
     if s is None or s.token is None: return
     T = self.types[s.type]
     tok = s.token
+    src = self.srcs[s.src]
     h = self.owners.get(s.sid)
     hh = None
     if h is not None:
@@ -174,28 +265,28 @@ class World (object):
     also = []
     try:
       if method == "handler":
-        if s.weak: r = self.src.removeListener(tok)      # proxy is not ours
-        else: r = self.src.removeListener(hh)
+        if s.weak: r = src.removeListener(tok)      # proxy is not ours
+        else: r = src.removeListener(hh)
       elif method == "handler_type":
-        if s.weak: r = self.src.removeListener(tok)
-        else: r = self.src.removeListener(hh, T)
+        if s.weak: r = src.removeListener(tok)
+        else: r = src.removeListener(hh, T)
       elif method == "eid":
-        r = self.src.removeListener(tok[1])
+        r = src.removeListener(tok[1])
       elif method == "eid_type":
-        r = self.src.removeListener(tok[1], T)
+        r = src.removeListener(tok[1], T)
       elif method == "pair":
-        r = self.src.removeListener(tok)
+        r = src.removeListener(tok)
       elif method == "pair_type":
-        r = self.src.removeListener(tok, T)
+        r = src.removeListener(tok, T)
       else:
         # the bulk form, with up to two more live subscriptions in the same
         # call (given as (type, id) pair and as bare id)
         others = [o for o in self.subs if o is not s and o.alive
-                  and o.token is not None][:2]
+                  and o.token is not None and o.src == s.src][:2]
         toks = [tok] + [(o.token if i == 0 else o.token[1])
                         for i, o in enumerate(others)]
         if others: self.rep.count("bulk_unsubscribes")
-        r = self.src.removeListeners(toks)
+        r = src.removeListeners(toks)
         also = others
     except Exception as e:
       self.fire("unsubscribe method=%s raises %s" % (method, type(e).__name__),
@@ -213,8 +304,8 @@ class World (object):
       self.rep.count("reentrant_unsub")
       self.flags.add("mut")
 
-  def expected_snapshot (self, t):
-    m = [s for s in self.subs if s.type == t and s.alive]
+  def expected_snapshot (self, t, src=0):
+    m = [s for s in self.subs if s.type == t and s.alive and s.src == src]
     m.sort(key=lambda s: (-(s.prio or 0), s.seq))
     return m
 
@@ -222,19 +313,46 @@ class World (object):
     R = self.R
     T = self.types[t]
     d = Delivery()
-    d.type = t; d.start = self.tick(); d.snapshot = self.expected_snapshot(t)
-    d.invoked = []; d.pos = -1; d.halted = False; d.aborted = None
+    self.nraise += 1
+    d.src = self.nraise % len(self.srcs)
+    src = self.srcs[d.src]
+    d.type = t; d.start = self.tick(); d.snapshot = self.expected_snapshot(t, d.src)
+    d.invoked = []; d.pos = -1; d.halted = False; d.aborted = None; d.attr = False
     d.order = {s.sid: i for i, s in enumerate(d.snapshot)}
     self.stack.append(d)
     self.rep.count("deliveries")
     if inside:
       self.rep.count("reentrant_raise"); self.flags.add("mut")
-    f = self.src.raiseEventNoErrors if noerr else self.src.raiseEvent
+    f = src.raiseEventNoErrors if noerr else src.raiseEvent
     ev = None
     exc = None
     rv = None
     saved = R.handleEventException
     R.handleEventException = None
+    hooked = []
+    hk = self.nraise % 4
+    if noerr and hk == 1:
+      # the reporting hook switched on (a recording one)
+      def hook (source, event, args, kw, exc_info):
+        hooked.append(exc_info[1])
+      R.handleEventException = hook
+    elif noerr and hk == 2:
+      # the hook POX's core installs, with its logger captured
+      try:
+        import pox.core as PC
+        import logging
+        lg = logging.getLogger("c05-hook"); lg.propagate = False
+        if not lg.handlers: lg.addHandler(logging.NullHandler())
+        real = PC._revent_exception_hook
+        def hook (source, event, args, kw, exc_info):
+          hooked.append(exc_info[1])
+          saved_log = PC.log
+          PC.log = lg
+          try: return real(source, event, args, kw, exc_info)
+          finally: PC.log = saved_log
+        R.handleEventException = hook
+      except Exception:
+        pass
     try:
       try:
         if form == "instance":
@@ -245,7 +363,7 @@ class World (object):
           rv = f(ev, 7, k=8)
         else:
           rv = f(T, 3, y=4)
-      except (Exception, ScriptedAbort) as e:
+      except BaseException as e:
         exc = e
     finally:
       R.handleEventException = saved
@@ -259,6 +377,14 @@ class World (object):
                     "raiseEventNoErrors let %r escape" % (exc,))
         else:
           self.rep.count("noerrors_swallowed")
+          if R.handleEventException is None and hk in (1, 2) and False: pass
+          if hk in (1, 2):
+            self.rep.count("noerrors_swallowed_with_reporting_hook_on")
+            if len(hooked) != 1 or hooked[0] is not d.aborted:
+              # (nested suppressed raises report to the same hook)
+              if d.aborted not in hooked:
+                self.fire("suppressed handler exception not reported to the hook",
+                          "hook saw %r, handler raised %r" % (hooked, d.aborted))
       else:
         if exc is None:
           pass    # swallowing is not forbidden by the statement
@@ -301,11 +427,16 @@ class World (object):
       self.fire("invoked outside any delivery", "handler #%d" % s.sid)
       return None
     d = self.stack[-1]
+    if s.src != d.src:
+      self.fire("invoked for a raise on another source of the same class",
+                "handler #%d is subscribed on source %d, the event was raised "
+                "on source %d" % (s.sid, s.src, d.src))
+      return None
     if s.type != d.type:
       self.fire("invoked for other event type", "handler #%d" % s.sid)
     if not isinstance(event, self.types[d.type]):
       self.fire("handler got wrong event object", repr(event))
-    elif event.source is not self.src:
+    elif event.source is not self.srcs[d.src]:
       self.fire("event.source not set", repr(event.source))
     if d.halted:
       self.fire("invoked after halt",
@@ -353,6 +484,7 @@ class World (object):
       rep.count("once_consumed")
     step = s.script[k_inv] if k_inv < len(s.script) else [["ret", "none"]]
     ret = None
+    sethalt = False
     for act in step:
       op = act[0]
       if op == "sub":
@@ -367,9 +499,28 @@ class World (object):
         _, t, form, noerr = act
         if len(self.stack) < 4:
           self.do_raise(s.type if t == "same" else t, form, noerr, inside=True)
+      elif op == "sethalt":
+        event.halt = True
+        sethalt = True
       elif op == "exc":
-        if len(act) > 1 and act[1] == "base":
+        kind = act[1] if len(act) > 1 else None
+        if kind == "base":
           e = ScriptedAbort("scripted non-Exception failure in #%d" % s.sid)
+          self.rep.count("handler_base_exceptions")
+        elif kind == "revent":
+          # what a handler gets when it, in turn, misuses an event source
+          e = self.R.ReventError("scripted ReventError in #%d" % s.sid)
+          self.rep.count("handler_revent_errors")
+        elif kind == "undeclared":
+          try:
+            self.srcs[d.src].raiseEvent(self.EX())
+            e = RuntimeError("undeclared raise inside a handler was accepted")
+          except self.R.ReventError as ex:
+            e = ex
+          self.rep.count("handler_revent_errors")
+        elif kind in ("kbd", "sysexit", "genexit"):
+          e = dict(kbd=KeyboardInterrupt, sysexit=SystemExit,
+                   genexit=GeneratorExit)[kind]("scripted %s in #%d" % (kind, s.sid))
           self.rep.count("handler_base_exceptions")
         else:
           e = RuntimeError("scripted failure in #%d" % s.sid)
@@ -385,6 +536,13 @@ class World (object):
            "remove": R.EventRemove, "haltremove": R.EventHaltAndRemove}[ret or "none"]
     if ret in ("true", "halt", "haltremove"):
       d.halted = True
+    if sethalt: d.attr = True
+    if d.attr and ret in ("cont", "remove", "false"):
+      # halt requested through the event's attribute: it takes effect at the
+      # next handler (this one included) that returns something other than
+      # None; with None returns it is not judged
+      d.halted = True
+      self.rep.count("halts_through_the_event_attribute")
     if ret in ("false", "remove", "haltremove"):
       s.consumed = True
       if s.alive:
@@ -406,10 +564,10 @@ class World (object):
            and x is not me and x.seq < me.seq]
       return c[-1] if c else None
     if ref == "first":
-      c = self.expected_snapshot(me.type)
+      c = self.expected_snapshot(me.type, me.src)
       return c[0] if c else None
     if ref == "last":
-      c = self.expected_snapshot(me.type)
+      c = self.expected_snapshot(me.type, me.src)
       return c[-1] if c else None
     if isinstance(ref, int):
       return self.subs[ref] if ref < len(self.subs) else None
@@ -424,6 +582,9 @@ def run_history (case, rep):
     if k == "sub":
       _, t, prio, once, weak, how, script = op
       w.do_sub(t, prio, once, weak, how, script)
+    elif k == "autobind2":
+      _, prio, weak, prefix, via = op
+      w.do_autobind2(prio, weak, prefix, via)
     elif k == "unsub":
       _, idx, method = op
       if idx < len(w.subs): w.do_unsub(w.subs[idx], method)
@@ -453,6 +614,19 @@ def run_history (case, rep):
           w.src.addListenerByName("NoSuchEvent", lambda e: None)
         elif which == "raise":
           w.src.raiseEvent(w.EX())
+        elif which == "sub_subclass":
+          # types related to a declared one are not declared either
+          w.srcs[-1].addListener(w.E0b, lambda e: None)
+        elif which == "raise_subclass":
+          w.srcs[-1].raiseEvent(w.E0b())
+        elif which == "sub_base":
+          w.srcs[-1].addListener(R.Event, lambda e: None)
+        elif which == "sub_name_prefix":
+          w.srcs[-1].addListenerByName(w.types[0].__name__[:1], lambda e: None)
+        elif which == "sub_name_longer":
+          w.srcs[-1].addListenerByName(w.types[0].__name__ + "0", lambda e: None)
+        elif which == "sub_name_case":
+          w.srcs[-1].addListenerByName(w.types[0].__name__.lower(), lambda e: None)
         else:
           w.src.raiseEventNoErrors(w.EX())
         w.fire("undeclared accepted op=%s" % which,
@@ -464,7 +638,7 @@ def run_history (case, rep):
                repr(e))
     # listener count agrees with the model after every top-level operation
     try:
-      n = w.src._eventMixin_get_listener_count()
+      n = sum(x._eventMixin_get_listener_count() for x in w.srcs)
     except AttributeError:
       n = None
     if n is not None:
@@ -483,7 +657,7 @@ def do_case (case, rep):
     rep.violation("C05 harness-visible exception",
                   traceback.format_exc()[-1200:], case)
     nt = True
-  rep.case(repr(case["ops"]), nontrivial=nt)
+  rep.case(repr((case["ops"], case.get("nsrc"), case.get("flavour"))), nontrivial=nt)
 
 
 # --------------------------------------------------------------------------
@@ -496,6 +670,8 @@ def behaviours ():
     B.append([[["ret", r]]])
   B.append([[["exc"]]])
   B.append([[["exc", "base"]]])
+  B.append([[["exc", "revent"]]])
+  B.append([[["sethalt"], ["ret", "cont"]]])
   for prio in (0, 5, -1):
     B.append([[["sub", "same", prio, False, []], ["ret", "none"]]])
   B.append([[["sub", "same", 5, True, []], ["ret", "none"]]])
@@ -544,7 +720,11 @@ def rand_script (rng, depth):
                      rng.choice(["instance", "class", "instance_args"]),
                      rng.random() < 0.5])
       else:
-        step.append(["exc"] if rng.random() < 0.7 else ["exc", "base"])
+        step.append(["exc"] if rng.random() < 0.5 else
+                    ["exc", rng.choice(["base", "base", "revent", "undeclared", "kbd",
+                                        "sysexit", "genexit"])])
+    if rng.random() < 0.08:
+      step.append(["sethalt"])
     step.append(["ret", rng.choice(RETS + ["none", "none", "none"])])
     out.append(step)
   return out
@@ -563,6 +743,11 @@ def gen_random (rng, n, maxlen):
         ops.append(["sub", rng.randrange(2), rng.choice(PRIOS),
                     rng.random() < 0.25, weak, how, rand_script(rng, 0)])
         nsub += 1
+      elif r < 0.45:
+        ops.append(["autobind2", rng.choice([0, 0, 5, -1]), False,
+                    rng.choice([None, None, "p", "x_y"]),
+                    rng.choice(["addListeners", "addListeners", "listenTo"])])
+        nsub += 2
       elif r < 0.55:
         ops.append(["unsub", rng.randrange(nsub + 2),
                     rng.choice(["handler", "handler_type", "eid", "eid_type",
@@ -571,12 +756,19 @@ def gen_random (rng, n, maxlen):
         ops.append(["drop", rng.randrange(nsub)])
       elif r < 0.67:
         ops.append(["undeclared", rng.choice(["sub", "sub_name", "raise",
-                                              "raise_noerr"])])
+                                              "raise_noerr", "sub_subclass",
+                                              "raise_subclass", "sub_base",
+                                              "sub_name_prefix", "sub_name_longer",
+                                              "sub_name_case"])])
       else:
         ops.append(["raise", rng.randrange(2),
                     rng.choice(["instance", "class", "instance_args"]),
                     rng.random() < 0.5])
-    yield dict(ops=ops)
+    case = dict(ops=ops)
+    r = rng.random()
+    if r < 0.35: case["nsrc"] = rng.choice([2, 2, 3])
+    if rng.random() < 0.3: case["flavour"] = rng.randrange(1, 4)
+    yield case
 
 
 def gen_weak (rng, n):
